@@ -1,7 +1,7 @@
 (* C14 -- Query filters evaluate as documented, survive archiving, tolerate bad archives.
    Property theorems only: each is closed by [exact] of a lemma proved under Flt/.
    (the model: Flt/FltModel.v evaluator, Flt/FltArchive.v archive codec, Flt/FltParse.v expression parser) *)
-From Coq Require Import List NArith ZArith Strings.Byte.
+From Coq Require Import List NArith ZArith Bool Strings.Byte.
 From Flocq Require Import IEEE754.Binary IEEE754.Bits.
 From Muscle Require Import Gen.Consts Msg.MsgDefs Msg.MsgModel Flt.FltModel Flt.FltArchive Flt.FltParse
   Flt.FltProofs Flt.FltArchiveProofs Flt.FltDocProofs Flt.FltNumProofs Flt.FltParseProofs Flt.FltParseStruct Flt.FltLexProofs Flt.FltIeee.
@@ -121,6 +121,18 @@ Theorem C14_missing_value_rule : forall t m name idx op mop val msk def,
   end.
 Proof. exact num_matches_rule. Qed.
 Print Assumptions C14_missing_value_rule.
+
+(* ================= value-exists filters *)
+Theorem C14_exists_with_type : forall m name tc idx,
+  (tc =? c_B_ANY_TYPE) = false ->
+  ((tc =? c_B_STRING_TYPE) || (0 <? elem_size (ftype_of_tc tc))) = true ->
+  exists_data m name tc idx =
+  match flookup name (msg_fields m) with
+  | Some (tc', r) => (tc =? tc') && match repr_nth idx r with Some _ => true | None => false end
+  | None => false
+  end.
+Proof. exact exists_spec_fixed. Qed.
+Print Assumptions C14_exists_with_type.
 
 (* ================= raw-data filters: each operator is the documented relation on byte strings *)
 Theorem C14_raw_equal : forall my his, raw_op c_RQF_OP_EQUAL_TO my his = true <-> his = my.
@@ -292,6 +304,13 @@ Proof.
     repeat (apply Forall_cons || apply Forall_nil); try (unfold tok_ok; cbn; repeat split; reflexivity); assumption.
   - vm_compute. repeat (apply Forall_cons || apply Forall_nil); reflexivity.
 Qed.
+
+Example C14_redundant_parens_example :     (* ( ! ( a == 1 ) ) *)
+  wf_body (BOp (OGroup false (BOp (OGroup true (BLeaf false [user_tok [97] false; fixed_tok c_LTOKEN_EQ; user_tok [49] false]))))).
+Proof. cbn. repeat split; try reflexivity; repeat constructor. Qed.
+
+Example C14_exists_type_example : (c_B_INT32_TYPE =? c_B_ANY_TYPE) = false /\ ((c_B_INT32_TYPE =? c_B_STRING_TYPE) || (0 <? elem_size (ftype_of_tc c_B_INT32_TYPE))) = true.
+Proof. split; reflexivity. Qed.
 
 Example C14_unknown_op_example : c_NQF_NUM_NUMERIC_OPERATORS <= 200 /\ c_SQF_NUM_STRING_OPERATORS <= 200.
 Proof. split; vm_compute; discriminate. Qed.
